@@ -213,7 +213,7 @@ UNOPS = {'Not', 'Neg', 'discriminant', 'PtrMetadata', 'Len', 'CopyForDeref', 'Sh
 BUILTIN_ENUMS = {
     'Option': ['None', 'Some'], 'Result': ['Ok', 'Err'], 'ControlFlow': ['Continue', 'Break'],
     'Cow': ['Borrowed', 'Owned'], 'Bound': ['Included', 'Excluded', 'Unbounded'],
-    'Entry': ['Occupied', 'Vacant'], 'Poll': ['Ready', 'Pending'],
+    'Entry': ['Occupied', 'Vacant'], 'Poll': ['Ready', 'Pending'], 'Either': ['Left', 'Right'],
 }
 ORDERING = {'Less': -1, 'Equal': 0, 'Greater': 1}
 RETURN = 'return'
@@ -685,7 +685,7 @@ class Interp:
                 return lambda ctx, fr: self.cast_int(f(ctx, fr), ty)
             if kind == 'PointerExposeProvenance' and ty in INT_BITS:
                 return lambda ctx, fr: BV(ctx.address_of(f(ctx, fr)), INT_BITS[ty])
-            if kind in ('PointerCoercion', 'PtrToPtr', 'Transmute', 'PointerExposeProvenance', 'PointerWithExposedProvenance', 'FnPtrToPtr'):
+            if kind in ('PointerCoercion', 'PtrToPtr', 'Transmute', 'PointerExposeProvenance', 'PointerWithExposedProvenance', 'FnPtrToPtr', 'Subtype'):
                 if kind == 'Transmute' and ty in INT_BITS:
                     def r_addr(ctx, fr):
                         v = f(ctx, fr)
@@ -741,9 +741,7 @@ class Interp:
         if mv:
             ty = mv.group(1); var = mv.group(2)
             if mv.group(3):
-                ms = mask_literals(s)
-                k = ms.rindex('::' + var + '(')
-                inner = s[k + len(var) + 3:-1]
+                inner = s[self._open_paren(mask_literals(s), len(s) - 1) + 1:-1]
                 fs = [self.c_operand(f, fn) for f in split_top(inner)]
             else:
                 fs = []
@@ -789,13 +787,17 @@ class Interp:
             msg = f'{e} [in {fn.crate}::{fn.name}: {st[:160]}]'
             def bad(ctx, fr): raise Unsupported(msg)
             return bad
+        except Exception as e:
+            msg = f'MIR statement not understood ({type(e).__name__}: {e}) [in {fn.crate}::{fn.name}: {st[:160]}]'
+            def bad2(ctx, fr): raise Unsupported(msg)
+            return bad2
 
     def _c_stmt(self, st, fn):
         if st.startswith('goto -> bb'):
             t = int(st[10:-1]); return lambda ctx, fr: t
         if st == 'return;': return lambda ctx, fr: RETURN
         if st == 'unreachable;':
-            def unr(ctx, fr): raise Panic('unreachable executed')
+            def unr(ctx, fr): raise Panic('unreachable executed (last switch on ' + repr(getattr(ctx, 'last_switch', None))[:80] + ')')
             return unr
         if st.startswith('switchInt('):
             m = re.match(r'^switchInt\((.*)\) -> \[(.*)\];$', st)
@@ -807,6 +809,7 @@ class Interp:
                 else: targets.append((int(k), int(b[2:])))
             def sw(ctx, fr):
                 v = f(ctx, fr)
+                ctx.last_switch = v
                 if isinstance(v, BV):
                     if v.conc():
                         e = v.e
@@ -924,20 +927,25 @@ class Interp:
         if TRACE: print('  ' * ctx.depth + 'call', key)
         if key.startswith('<Self as ') and args:
             a0 = deref(args[0])
-            if isinstance(a0, Agg): key = '<' + a0.name + key[5:]
+            if isinstance(a0, Agg): key = '<' + self._runtime_type(crate, a0, key[5:]) + key[5:]
             else:
                 mt = re.match(r'^<Self as ([\w:]+)(?:<.*>)?>::(\w+)$', key)
                 if mt:
                     trait, meth = mt.group(1).split('::')[-1], mt.group(2)
                     want = 'Vec' if isinstance(a0, VecV) else ('[' if isinstance(a0, (SliceV, list)) else ('String' if isinstance(a0, StrV) else None))
-                    for c2 in [crate] + [c for c in self.crates if c != crate]:
-                        for (t, tr, me) in self.crates[c2].trait_impls:
-                            if tr == trait and me == meth and want and (t == want or (want == '[' and t.startswith('['))):
-                                key = '<' + t + key[5:]; break
+                    found = None
+                    for exact in (True, False):
+                        for c2 in [crate] + [c for c in self.crates if c != crate]:
+                            for (t, tr, me) in self.crates[c2].trait_impls:
+                                if tr == trait and (me == meth or not exact) and want and (t == want or (want == '[' and t.startswith('['))):
+                                    found = t; break
+                            if found: break
+                        if found: break
+                    if found: key = '<' + found + key[5:]
         elif key[0] == '<' and args and GENERIC_RECV.match(key):
             a0 = deref(args[0])
             if isinstance(a0, Agg) and a0.vidx is None or isinstance(a0, Agg) and a0.name not in ('Option', 'Result', 'tuple'):
-                k2 = '<' + a0.name + key[key.index(' as '):]
+                k2 = '<' + self._runtime_type(crate, a0, key[key.index(' as '):]) + key[key.index(' as '):]
                 if self.resolve_static(crate, k2) is not None: key = k2
         tgt = self.resolve_static(crate, key)
         if tgt is None:
@@ -953,6 +961,18 @@ class Interp:
             return f(self, ctx, *args)
         finally:
             ctx.cur_key, ctx.cur_crate, ctx.cur_raw = saved
+
+    def _runtime_type(self, crate, a0, rest):
+        """type text of a receiver for run-time dispatch: `Name<FirstFieldType>` when the crate has impls for several instantiations
+        of the generic type (impl Search for WithTokenSpan<Choice> / WithTokenSpan<Expression> ...)"""
+        if a0.fields:
+            f0 = deref(a0.fields[0])
+            if isinstance(f0, Agg) and f0.name not in ('tuple', 'Option', 'Result', 'f64') and re.fullmatch(r'\w+', f0.name or ''):
+                cand = f'{a0.name}<{f0.name}>'
+                r = self.resolve_static(crate, '<' + cand + rest)
+                if r is not None and r[0] == 'fn' and f0.name in r[1].arg_tys[0] if r is not None and r[0] == 'fn' and r[1].arg_tys else False:
+                    return cand
+        return a0.name
 
     def call_value(self, ctx, crate, f, args):
         """call a closure / fn item value with already spread arguments"""
@@ -1113,7 +1133,10 @@ class Interp:
     @staticmethod
     def _unify(pat, gens, arg):
         """match trait-argument text `pat` (with generic names `gens`) against concrete `arg`; score = literal length"""
-        pat = re.sub(r"'\w+ ", "", pat.strip()); arg = re.sub(r"'\w+ ", "", arg.strip())
+        def nolt(t):
+            t = re.sub(r"<'\w+>", "", t.strip()); t = re.sub(r"<'\w+, *", "<", t); t = re.sub(r", *'\w+(?=[,>])", "", t)
+            return re.sub(r"'\w+ ", "", t)
+        pat = nolt(pat); arg = nolt(arg)
         pat = re.sub(r'\b(?:\w+::)+(\w+)', r'\1', pat); arg = re.sub(r'\b(?:\w+::)+(\w+)', r'\1', arg)
         rx = re.escape(pat)
         for g in gens:
@@ -1151,7 +1174,7 @@ class Interp:
                 else:
                     raise Unsupported('fell off block in ' + hk)
                 if ctx.steps > ctx.step_limit: raise StepLimit('step limit')
-        except Unsupported as e:
+        except (Unsupported, Panic) as e:
             if not getattr(e, 'located', False):
                 e.args = (f'{e.args[0]} [in {hk} bb{bb}]',); e.located = True
             raise
